@@ -86,3 +86,36 @@ Proof. repeat split; reflexivity. Qed.
 Print Assumptions C10_source_facts.
 ''')
 print('ok')
+
+H_NAMES = '''From Coq Require Import List NArith ZArith Bool.
+From NV Require Import Lib.Res Gen.Fat FatNames.Model FatNames.ProofsAlias FatNames.ProofsValid FatNames.ProofsLfn.
+From NV Require Fat.Spec.
+Import ListNotations.
+Open Scope N_scope.'''
+
+mkprops.emit('/verif/coq/Props/C11.v',
+    'C11 -- Names round-trip exactly and are stored as standard VFAT entries. Statements only.\n'
+    '   Unicode upper-casing is CPython s: it enters as the explicit argument [up] (see DESIGN.md).',
+    H_NAMES,
+    [('C11_lfn_valid_spec', 'FatNames.ProofsValid.lfn_valid_spec', 'valid names = the VFAT rule (deny-list regenerated from fat.py)'),
+     ('C11_invalid_rejected', 'FatNames.ProofsValid.invalid_rejected', 'invalid names are rejected with ValueError and nothing is produced'),
+     ('C11_too_long_rejected', 'FatNames.ProofsValid.too_long_rejected', None),
+     ('C11_name_roundtrip', 'FatNames.ProofsLfn.name_roundtrip', 'the independent specification reader (Fat.Spec.decode_dir) recovers exactly the name from the records written'),
+     ('C11_lfn_entries_standard', 'FatNames.ProofsLfn.lfn_entries_standard', 'order, terminator, padding, checksum, at most 20 records'),
+     ('C11_pure_83_no_lfn', 'FatNames.ProofsValid.pure_83_no_lfn', 'pure 8.3 names (optionally all-lower base / extension) need no long-name records'),
+     ('C11_short_only_shows_name', 'FatNames.ProofsValid.short_only_shows_name', None),
+     ('C11_alias_standard', 'FatNames.ProofsValid.alias_standard', 'the alias uses only legal 8.3 bytes, 8+3 long'),
+     ('C11_checksum_standard', 'FatNames.ProofsValid.checksum_standard', None),
+     ('C11_alias_unique', 'FatNames.ProofsAlias.alias_unique', 'the alias differs from every existing alias and long name of the directory'),
+     ('C11_unique_sfn_least', 'FatNames.ProofsAlias.unique_sfn_least', 'the numeric tail is the least one not in use'),
+     ('C11_unique_sfn_enospc', 'FatNames.ProofsAlias.unique_sfn_enospc', None),
+     ('C11_lookup_stable', 'FatNames.ProofsValid.lookup_stable', 'adding an entry never changes what an existing name resolves to (no shadowing)'),
+     ('C11_lookup_found', 'FatNames.ProofsValid.lookup_found', None),
+    ], tail='''
+Theorem C11_source_facts :
+  lfn_valid_guards_standard = true /\\ lfn_valid_anchored_end = true /\\ max_sfn_suffix = 65535 /\\
+  lfn_checksum_standard = true /\\ lfn_sizeof = 32 /\\ de_sizeof = 32.
+Proof. repeat split; reflexivity. Qed.
+Print Assumptions C11_source_facts.
+''')
+print('C11 ok')
